@@ -18,7 +18,11 @@ def main():
     index = []
     for d in sorted(glob.glob("/tmp/seed-C*/_seed/C*-*")):
         sid = os.path.basename(d); prop = sid.split("-")[0]
-        dst = os.path.join(out, sid); os.makedirs(dst, exist_ok=True)
+        dst = os.path.join(out, sid)
+        if not os.path.exists(os.path.join(d, "confirm.txt")) and os.path.exists(os.path.join(dst, "meta.json")):
+            m = json.load(open(os.path.join(dst, "meta.json")))      # collected earlier; the scratch records were removed since
+            index.append((sid, prop, m["confirmed_in_scratch_worktree"]["result"], m["detected_by"], m["files_touched"])); continue
+        os.makedirs(dst, exist_ok=True)
         for f in os.listdir(d):
             if f.endswith((".diff", ".cpp", ".c", ".md")): shutil.copy(os.path.join(d, f), os.path.join(dst, f))
         notes = open(os.path.join(d, "notes.md")).read() if os.path.exists(os.path.join(d, "notes.md")) else ""
